@@ -15,10 +15,9 @@ import gens
 import lit
 
 # repaired in /repo and therefore no longer excused: 1 descriptor_order_not_first (1a5deb0), 2 descriptor_order_zero
-# (0d0f450, reader side), 4/7 coarse/base
-# branch_edge_order (be4ff6e), 5/8 coarse/base ring_edge_order (dd9a0c2); their witnesses stay in the corpus
-CLASSES = {3: 'coarse_node_renamed', 6: 'coarse_pct_marker', 9: 'base_pct_marker',
-           10: 'ambiguous_descriptor_choice'}
+# (0d0f450, reader side), 3 coarse_node_renamed (6d8cc68), 4/7 coarse/base branch_edge_order (be4ff6e), 5/8 coarse/base
+# ring_edge_order (dd9a0c2), 6/9 coarse/base pct_marker_then_digit (b681517); their witnesses stay in the corpus
+CLASSES = {10: 'ambiguous_descriptor_choice'}
 CLAUSES = {1: 'the writer raised an exception',
            2: 'the reader rejected what the writer produced',
            3: 'what was read back differs from the original (descriptor list / fragment not isomorphic)',
@@ -37,7 +36,12 @@ AA_SKELETONS = gens.AA_SKELETONS + ['[NH3+]C', 'C[O-]', 'c1ccccc1C', 'C(=O)[O-]'
                                     # between non-aromatic atoms (written ':'), aromatic-aliphatic single bond
                                     'c1ccccc1-c1ccccc1', 'c1ccccc1c1ccccc1', 'c1ccccc1-c1ccncc1', 'c1cc(-c2ccccc2)ccc1',
                                     'C:C', 'CC:CC', 'c1ccccc1C', 'c1ccc2ccccc2c1', 'C1=CC=CC=C1',
-                                    'c1ccc(cc1)-c1ccccc1', 'c1cc[nH]c1', 'c1ccccc1-c1ccccc1-c1ccccc1']
+                                    'c1ccc(cc1)-c1ccccc1', 'c1cc[nH]c1', 'c1ccccc1-c1ccccc1-c1ccccc1',
+                                    # interleaved (non-nested) rings: ring 1 is closed while ring 2 is open and a third
+                                    # ring is opened afterwards, so the lowest free ring marker is not the number of
+                                    # open rings + 1 (cubane, tricyclic cages, a steroid skeleton)
+                                    'C12C3C4C1C5C2C3C45', 'C1CC2C1CC1CC2CC1', 'C1CC2CC1C1CC2C1', 'C1CC2C1C1CC2C1',
+                                    'C1CC2C1CC1=CC2CC1', 'C1CCC2C1(CCC3C2CC=C4C3(CCC(C4)O)C)C']
 CG_NAMES = ['A', 'B', 'X', 'PEO']
 
 
@@ -45,7 +49,7 @@ def cg_skeleton(rng, fragname):
     """small coarse fragment; with probability 1/2 every node carries the fragment's own name"""
     own = rng.random() < 0.5
     nm = (lambda: fragname) if own else (lambda: rng.choice(CG_NAMES))
-    shape = rng.choice(['1', '2', '3', 'b', 'r', 'd', 'bd', 'rd'])
+    shape = rng.choice(['1', '2', '3', 'b', 'r', 'd', 'bd', 'rd', 'ir', 'il'])
     n = lambda: '[#%s]' % nm()
     if shape == '1':
         return n()
@@ -61,6 +65,12 @@ def cg_skeleton(rng, fragname):
         return n() + rng.choice('=#') + n()
     if shape == 'bd':
         return n() + '(' + n() + ')' + '=' + n()
+    if shape == 'ir':   # interleaved rings: 1 opened, 2 opened, 1 closed, a third opened while 2 is open
+        s = rng.choice(['', '', '=', '#'])
+        return n() + '1' + n() + s + '2' + n() + '1' + n() + '3' + n() + '2' + n() + '3'
+    if shape == 'il':   # the same on a ladder, with chain nodes in between
+        s = rng.choice(['', '', '='])
+        return n() + '1' + n() + n() + '2' + n() + '1' + n() + n() + s + '1' + n() + '2' + n() + n() + '1'
     return n() + '=1' + n() + n() + '1'
 
 
@@ -215,6 +225,13 @@ class C08(common.Prop):
             {'kind': 'frag', 's': '{#BP=[$]c1ccccc1-c1ccccc1[$]}', 'aa': True},
             {'kind': 'frag', 's': '{#BP=c1ccccc1-c1ccccc1,#X=c1ccccc1c1ccccc1,#Y=C:C[$]}', 'aa': True},
             {'kind': 'frag', 's': '{#T=[$]c1ccc(cc1)-c1ccc(cc1)-c1ccccc1}', 'aa': True},
+            {'kind': 'frag', 's': '{#CUB=[$]C12C3C4C1C5C2C3C45[>],#CAGE=[$]C1CC2C1CC1CC2CC1[>]}', 'aa': True},
+            {'kind': 'frag', 's': '{#ST=C1CCC2C1(CCC3C2CC=C4C3(CCC(C4)O[>])C)C,#T=[<]C1CC2CC1C1CC2C1[!]}', 'aa': True},
+            {'kind': 'frag', 's': '{#X=[#A]1[#B]=2[#C]1[#D]3[#E]2[#F]3[$]}', 'aa': False},
+            {'kind': 'frag', 's': '{#X=[#X]1[#X][#X]2[#X]1[#X][$][#X]1[#X]2[#X][#X]1}', 'aa': False},
+            {'kind': 'whole', 's': '{[#CHOL][#SUC]}.{#CHOL=C1CCC2C1(CCC3C2CC=C4C3(CCC(C4)O[>])C)C,#SUC=[<]C(=O)CCC(=O)O}',
+             'aa': True},
+            {'kind': 'whole', 's': '{[#A][#B][#A]}.{#A=[$]C1CC2C1CC1CC2CC1,#B=[$]C12C3C4C1C5C2C3C45[$]}', 'aa': True},
             {'kind': 'whole', 's': '{[#BP][#M]}.{#BP=c1ccccc1-c1ccccc1[$],#M=[$]C}', 'aa': True},
             {'kind': 'whole', 's': '{[#PEO][#PMMA][#PEO][#PMMA]}.{#PEO=[>]COC[<],#PMMA=[>]CC(C)[<]C(=O)OC}', 'aa': True},
             {'kind': 'whole', 's': '{[#TC5]1[#TC5][#TC5]1}.{#TC5=[$]cc[$]}', 'aa': True},
